@@ -22,30 +22,43 @@ COLS = {"trackData": "v2_track_data", "overviewWaveFormData": "v2_overview", "be
         "quickCues": "v2_quick_cues", "loops": "v2_loops"}
 
 
+def fextra(rng, lo=0):
+    """Trailing data: mostly short, now and then as long as a later format revision might append."""
+    r = rng.random()
+    if r > 0.96:
+        return rng.randbytes(rng.choice([255, 256, 257, 1024, 4096, 16384, 65536])).hex()
+    return bytes(rng.randrange(256) for _ in range(rng.randrange(lo, 65))).hex()
+
+
+def fcount(rng, usual):
+    """Entry counts: the usual small ones, now and then far more than this library ever writes."""
+    return rng.choice([31, 32, 100, 127, 128, 255, 256, 257, 1000]) if rng.random() > 0.95 else rng.choice(usual)
+
+
 def foreign_value(rng, kind):
     if kind == "v2_track_data":
         v = G.v2_track_data(rng)
-        v["extra"] = bytes(rng.randrange(256) for _ in range(rng.randrange(1, 65))).hex() if rng.random() < 0.8 else ""
+        v["extra"] = fextra(rng, 1) if rng.random() < 0.8 else ""
         return v
     if kind == "v2_beat_data":
         v = G.v2_beat_data(rng)
         v["is_set"] = rng.choice([0, 1, 2, 7, 255])
-        v["default"] = [[G.rdouble(rng), G.rint64(rng), G.rint32(rng), rng.choice([0, 1, -1, 77, 2 ** 31 - 1])] for _ in range(rng.randrange(0, 21))]
-        v["adjusted"] = [[G.rdouble(rng), G.rint64(rng), G.rint32(rng), rng.choice([0, 5, -9])] for _ in range(rng.randrange(0, 21))]
-        v["extra"] = bytes(rng.randrange(256) for _ in range(rng.randrange(0, 65))).hex()
+        v["default"] = [[G.rdouble(rng), G.rint64(rng), G.rint32(rng), rng.choice([0, 1, -1, 77, 2 ** 31 - 1])] for _ in range(fcount(rng, range(0, 21)))]
+        v["adjusted"] = [[G.rdouble(rng), G.rint64(rng), G.rint32(rng), rng.choice([0, 5, -9])] for _ in range(fcount(rng, range(0, 21)))]
+        v["extra"] = fextra(rng)
         return v
     if kind == "v2_quick_cues":
         v = G.v2_quick_cues(rng, bool_flag=False)
-        v["cues"] = [G.v2_quick_cue(rng) for _ in range(rng.choice([0, 1, 3, 7, 8, 9, 12, 20]))]
-        v["extra"] = bytes(rng.randrange(256) for _ in range(rng.randrange(0, 65))).hex()
+        v["cues"] = [G.v2_quick_cue(rng) for _ in range(fcount(rng, [0, 1, 3, 7, 8, 9, 12, 20]))]
+        v["extra"] = fextra(rng)
         return v
     if kind == "v2_loops":
         v = G.v2_loops(rng)
-        v["loops"] = [G.v2_loop(rng) for _ in range(rng.choice([0, 1, 3, 8, 9, 20]))]
-        v["extra"] = bytes(rng.randrange(256) for _ in range(rng.randrange(0, 65))).hex()
+        v["loops"] = [G.v2_loop(rng) for _ in range(fcount(rng, [0, 1, 3, 8, 9, 20]))]
+        v["extra"] = fextra(rng)
         return v
-    v = G.v2_overview(rng)
-    v["extra"] = bytes(rng.randrange(256) for _ in range(rng.randrange(0, 65))).hex()
+    v = G.v2_overview(rng, big=rng.random() > 0.9)
+    v["extra"] = fextra(rng)
     return v
 
 
